@@ -77,6 +77,7 @@ def strategy_(draw: Any) -> Case:
         transitive_ref=flip("transitive_ref", 1),
         empty_enum=flip("empty_enum", 1),
         base_ne_proto=flip("base_ne_proto", 1),
+        subdirs=True,
         extensible=draw(st.booleans()),
         bits_budget=300,
         big=False,
